@@ -269,7 +269,7 @@ class RunLab(object):
         st.hook_fault = hook_fault
         st.faults_fired = []
         st.fault_owners = []
-        st.step_plugins, st.hook_plugins = list(step_plugins), list(hook_plugins)
+        st.step_plugins, st.hook_plugins = list(step_plugins), list(hook_plugins) + list(getattr(self, "extra_hook_plugins", None) or ())
         st.user_skip = set(program.get("user_skip") or ()) if isinstance(program, dict) else set()
         st.in_user_code = 0
 
